@@ -313,6 +313,38 @@ func init() {
 		}
 		l.p("/-- `unmarshalLogEvent` and `wpIterator.init` decode every string through `unmarshalString`, which rejects a length prefix larger than the bytes left before calling `xbinary.UnmarshalString` -/")
 		l.p("def rpcStringsLengthGuarded : Bool := %s", leanBool(guardedAll))
+		// --- does wpIterator.init validate every announced event (decode + parse of its fields text) before returning? ---
+		validates := false
+		if fd := funcDecl(fi, "wpIterator", "init"); fd != nil {
+			ast.Inspect(fd.Body, func(n ast.Node) bool {
+				fs, ok := n.(*ast.ForStmt)
+				if !ok {
+					return true
+				}
+				dec, prs := false, false
+				ast.Inspect(fs.Body, func(m ast.Node) bool {
+					if ce, ok := m.(*ast.CallExpr); ok {
+						switch f := ce.Fun.(type) {
+						case *ast.Ident:
+							if f.Name == "unmarshalLogEvent" {
+								dec = true
+							}
+						case *ast.SelectorExpr:
+							if f.Sel.Name == "NewFieldsFromKVString" {
+								prs = true
+							}
+						}
+					}
+					return true
+				})
+				if dec && prs {
+					validates = true
+				}
+				return true
+			})
+		}
+		l.p("/-- `wpIterator.init` decodes every announced event and parses its fields text, and fails if any of that fails (proposed repair of F20b/F20c) -/")
+		l.p("def wpInitValidatesEvents : Bool := %s", leanBool(validates))
 		l.p("/-- `Service.Write` calls `iw.resetMinMaxTs()` somewhere in its loop -/")
 		l.p("def writeLoopResetsHull : Bool := %s", leanBool(resetCalled))
 		l.write()
